@@ -300,7 +300,8 @@ class ShareSet:
         if num_bytes not in (16, 32):
             raise ValueError("secret should be 128 bits or 256 bits")
         if k == 1:
-            return [(0, secret)]
+            # threshold 1: every share carries the secret itself, at its own index
+            return [(i, secret) for i in range(n)]
         else:
             r = bytes(randint(0, 255) for _ in range(num_bytes - 4))
             digest = cls.digest(r, secret)
